@@ -1125,6 +1125,71 @@ def r18(ctx, rep):
               "IdGenerator::load starts from empty generators and folds the whole query through the loader", file=ld["file"], line=ld["l"], fn=ld["path"])
 
 
+def r19(ctx, rep):
+    """WHERE / HAVING routing, the take / sort extraction and the aggregate extraction of a SELECT all go through two small vector helpers.
+    `pluck` moves the elements a function accepts into a new vector and keeps the others, both in their order; `break_up` cuts a vector in
+    front of the first element a predicate accepts. An element lost or put on the wrong side is a clause lost or evaluated at the wrong stage."""
+    rep.rule("C01.R19", "utils::Pluck / BreakUp: every drained element lands in exactly one of the two vectors in order; the cut is in front of the first match", floor=4)
+    syn = ctx.syn
+    pl = next((f for f in syn.fns if f["crate"] == "prqlc" and f["file"].endswith("utils/mod.rs") and f["name"] == "pluck" and "body" in f), None)
+    bu = next((f for f in syn.fns if f["crate"] == "prqlc" and f["file"].endswith("utils/mod.rs") and f["name"] == "break_up" and "body" in f), None)
+    if pl is None or bu is None:
+        raise AnchorMissing("utils::{Pluck::pluck, BreakUp::break_up}")
+    loc = dict(file=pl["file"], fn=pl["path"])
+    loops = [n for n in walk(pl["body"]) if n.get("k") == "for" and re.fullmatch(r"self\.drain\(\.\.\)", show(n["e"], maxdepth=6).replace("(..)", "(..)"))]
+    if not loops:
+        loops = [n for n in walk(pl["body"]) if n.get("k") == "for" and "drain" in show(n["e"], maxdepth=6)]
+    ok, why = False, "the loop over `self.drain(..)` was not found"
+    kept = moved = None
+    if len(loops) == 1:
+        lp = loops[0]
+        full = show(lp["e"], maxdepth=6).replace(" ", "") in ("self.drain(..)",)
+        ms = matches_of(lp["body"])
+        if full and len(ms) == 1 and len(lp["body"].get("s", [])) == 1:
+            arms = {}
+            for a_ in ms[0]["arms"]:
+                h = pat_head(a_["pat"])
+                names = [x["n"] for x in walk(a_["pat"]) if x.get("k") == "p_ident"]
+                b = a_["body"]
+                b = b["s"][0] if b.get("k") == "block" and len(b.get("s", [])) == 1 else b
+                if isinstance(h, str) and len(names) == 1 and b.get("k") == "mcall" and b["m"] == "push" and show(b["a"][0]) == names[0] and a_.get("guard") is None:
+                    arms[last_seg(h)] = show(b["r"])
+            if set(arms) == {"Ok", "Err"} and arms["Ok"] != arms["Err"]:
+                moved, kept = arms["Ok"], arms["Err"]
+                ok = True
+            else:
+                why = f"the arms of the match over the function's result must push the bound value into two different vectors (found {arms})"
+        else:
+            why = "the loop must drain the whole vector and consist of one match over the function's result"
+    rep.check(ok, "pluck:every-element-lands-once", "Pluck::pluck: " + ("ok" if ok else why), line=pl["l"], **loc)
+    if ok:
+        ext = [n for n in pl["body"].get("s", []) if n.get("k") == "mcall" and n["m"] == "extend" and show(n["r"]) == "self" and show(n["a"][0]) == kept]
+        t = tail_expr(pl["body"])
+        rep.check(len(ext) == 1 and t is not None and show(t) == moved, "pluck:kept-put-back-moved-returned",
+                  f"Pluck::pluck puts the rejected elements back (`self.extend({kept})`, once, unconditionally) and returns the accepted ones (`{moved}`)", line=pl["l"], **loc)
+        sorts = [n["m"] for n in walk(pl["body"]) if n.get("k") == "mcall" and n["m"] in ("rev", "reverse", "sort", "sort_by", "sort_by_key", "dedup", "swap_remove", "insert", "retain")]
+        rep.check(not sorts, "pluck:order-kept", f"Pluck::pluck does not reorder or drop ({sorts})", line=pl["l"], **loc)
+    loc = dict(file=bu["file"], fn=bu["path"])
+    prm = [x["n"] for p_ in bu["params"] for x in walk(p_) if x.get("k") == "p_ident" and x["n"] != "self"]
+    pos = None
+    for st in bu["body"].get("s", []):
+        if st.get("k") == "local" and st["pat"].get("k") == "p_ident" and st.get("init") is not None:
+            t = show(st["init"], maxdepth=8)
+            if re.fullmatch(r"self\.iter\(\)\.position\(" + re.escape(prm[0] if prm else "f") + r"\)\.unwrap_or\(self\.len\(\)\)", t):
+                pos = st["pat"]["n"]
+    drains = [n for n in walk(bu["body"]) if n.get("k") == "mcall" and n["m"] in ("drain", "split_off")]
+    ok = pos is not None and len(drains) == 1 and show(drains[0]["r"]) == "self" and show(drains[0]["a"][0], maxdepth=4).replace(" ", "").replace("(", "").replace(")", "") in (pos + "..", pos)
+    rep.check(ok, "break_up:cut-in-front-of-first-match", f"BreakUp::break_up cuts at the position of the first match, or at the end when there is none "
+              f"(position `{pos}`; cut {[show(d, maxdepth=5) for d in drains]}): the matching element belongs to the second part", line=bu["l"], **loc)
+    t = tail_expr(bu["body"])
+    second = None
+    for st in bu["body"].get("s", []):
+        if st.get("k") == "local" and st["pat"].get("k") == "p_ident" and st.get("init") is not None and drains and any(d is x for d in drains for x in walk(st["init"])):
+            second = st["pat"]["n"]
+    rep.check(t is not None and t.get("k") == "tuple" and [show(x) for x in t["e"]] == ["self", second], "break_up:parts-in-order",
+              f"BreakUp::break_up returns (front, back) = (self, {second}); found `{show(t) if t else None}`", line=bu["l"], **loc)
+
+
 def run(ctx, rep):
-    for r in (r1, r2, r3, r4, r5, r6, r7, r8, r9, r10, r11, r12, r13, r14, r15, r16, r17, r18):
+    for r in (r1, r2, r3, r4, r5, r6, r7, r8, r9, r10, r11, r12, r13, r14, r15, r16, r17, r18, r19):
         rep.guard(r, ctx)
